@@ -40,7 +40,7 @@ type c08Case struct {
 	DeadlineNs  int64  `json:"deadline_ns,omitempty"`
 }
 
-var c08Comps = []string{"retry", "retry", "retry>cb", "retry>bh", "fallback>retry", "retry>fallback", "hedge", "retry>hedge", "hedge>retry", "rl!>retry", "retry>rl!", "bh!>retry", "retry>bh!", "rl!"}
+var c08Comps = []string{"retry", "retry", "retry>cb", "retry>bh", "fallback>retry", "retry>fallback", "hedge", "retry>hedge", "hedge>retry", "rl!>retry", "retry>rl!", "bh!>retry", "retry>bh!", "rl!", "hedge~", "retry>hedge~"}
 
 func genC08(r *rand.Rand) c08Case {
 	cs := c08Case{Comp: c08Comps[r.IntN(len(c08Comps))], Source: vk.Pick(r, "ctx", "ctx", "deadline", "timeout", "async", "async")}
@@ -88,6 +88,19 @@ func genC08(r *rand.Rand) c08Case {
 	}
 	if cs.Comp == "rl!" {
 		cs.FailN, cs.BlockAt, cs.LongDelayAt = 0, 0, 0
+	}
+	if strings.Contains(cs.Comp, "~") {
+		// a function that ignores cancellation for 6ms under a hedge policy that hedges every 2ms: the cancellation lands
+		// while the policy waits out a hedge delay with no result yet
+		cs.FailN, cs.BlockAt, cs.LongDelayAt = 0, 0, 0
+		if cs.Trigger != "before" {
+			cs.Trigger = "time"
+			cs.Micro = int64(200+r.IntN(1500)) * 1000
+		}
+		if cs.Source == "deadline" || cs.Source == "timeout" {
+			cs.Source = "ctx"
+			cs.Async = r.IntN(3) == 0
+		}
 	}
 	if strings.HasPrefix(cs.Comp, "hedge") && cs.Comp != "hedge>retry" || cs.Comp == "hedge" {
 		// a hedge alone returns the first result: no retry delay to land in
@@ -172,6 +185,7 @@ func c08Run(cs c08Case, twin bool) *c08Obs {
 		return -1, nil
 	}).HandleErrors(errE2).Build()
 	hedge := hedgepolicy.BuilderWithDelay[int](c08LongDelay).WithMaxHedges(1).Build()
+	hedgeQuick := hedgepolicy.BuilderWithDelay[int](2 * time.Millisecond).WithMaxHedges(2).Build()
 	bhFree := bulkhead.With[int](4)
 	bhFull := bulkhead.Builder[int](1).WithMaxWaitTime(c08LongDelay).Build()
 	rlInterval := time.Second
@@ -198,6 +212,8 @@ func c08Run(cs c08Case, twin bool) *c08Obs {
 			pols = append(pols, rl)
 		case "hedge":
 			pols = append(pols, hedge)
+		case "hedge~":
+			pols = append(pols, hedgeQuick)
 		case "fallback":
 			if len(pols) == 0 {
 				pols = append(pols, fbOuter)
@@ -247,6 +263,10 @@ func c08Run(cs c08Case, twin bool) *c08Obs {
 		mu.Unlock()
 		if !twin && cs.Trigger == "fn.enter" && k == cs.K {
 			fire()
+		}
+		if strings.Contains(cs.Comp, "~") {
+			time.Sleep(6 * time.Millisecond) // ignores cancellation
+			return value, nil
 		}
 		if !twin && k == cs.BlockAt {
 			select {
